@@ -17,7 +17,6 @@ use hxlib::util::{coq, Args, Rng, Sink, Stream};
 use inject::{Ctl, Ev, Plan};
 use serde_json::json;
 use std::collections::HashMap;
-use std::sync::Arc;
 use table::{build_prestate, run_op, snapshot, vsnap, Cfg, Env, Snap, OPS};
 
 const REQ: &str = "Common.Base Store.Model_Handlers Store.Model_Commit";
@@ -199,6 +198,108 @@ async fn run_once(base: &Env, op: &str, plan: Plan, variant: u64, swallow: bool)
     RunOut { res, trace: ctl.trace(), calls: ctl.calls(), env }
 }
 
+const P_ITY: &str = "list ((N * N) * (N * list N)) * (N * ((list bool * (N * N)) * (list bool * list N)))";
+const P_OTY: &str = "list (N * ((N * N) * (N * N))) * (N * list N)";
+
+/// commit by commit: the recorded calls of a clean run against the program the model builds for the transaction
+fn emit_prog(sink: &mut Sink, prog: &mut Stream, pre: &Pre, out: &RunOut, post: &Snap, det_after: &[(u64, Vec<String>, usize)], op: &str, variant: u64) {
+    let env = &out.env;
+    let cfg = pre.env.cfg;
+    let mut ids = Ids::new(&pre.listing);
+    // model-side description of the store at the start of the current commit: (path code, version, refs)
+    let mut cur: Vec<((u64, u64), u64, Vec<u64>)> = vec![];
+    for l in &pre.listing {
+        match classify(l) {
+            PK::File => cur.push(((0, ids.id(l)), 0, vec![])),
+            PK::Man(v) => {
+                let refs = pre.snap.versions.iter().find(|s| s.version == v).map(|s| s.refs.clone()).unwrap_or_default();
+                let r = refs.iter().map(|p| ids.id(p)).collect();
+                cur.push(((1, v), v, r));
+            }
+            PK::Det(v) => {
+                let refs = pre.detached.iter().find(|d| d.0 == v).map(|d| d.1.clone()).unwrap_or_default();
+                let r = refs.iter().map(|p| ids.id(p)).collect();
+                cur.push(((2, v), v, r));
+            }
+            PK::Tmp(v) => cur.push(((3, v), 0, vec![])),
+        }
+    }
+    let mut seg: Vec<&Ev> = vec![];
+    let mut nseg = 0;
+    for e in out.trace.iter().filter(|e| e.effect) {
+        seg.push(e);
+        let Some(pk) = publishes(env, e) else { continue };
+        // one commit: seg = its calls
+        let mut calls = vec![];
+        let mut new_files: Vec<u64> = vec![];
+        let mut human = vec![];
+        for x in &seg {
+            let (kind, a, b) = if x.kind == inject::K_COPY {
+                (inject::K_PUT, ids.code(&env.rel(&x.b)), (0, 0)) // a copy that creates a file counts as a put
+            } else {
+                (x.kind, ids.code(&env.rel(&x.a)), if x.b.is_empty() { (0, 0) } else { ids.code(&env.rel(&x.b)) })
+            };
+            if a.0 == 0 && (kind == inject::K_PUT || kind == inject::K_CREATE) && !new_files.contains(&a.1) {
+                new_files.push(a.1);
+            }
+            calls.push(format!("({}, ({}, {}))", kind, pc(a), pc(b)));
+            human.push(json!({"kind": x.kind, "a": env.rel(&x.a), "b": env.rel(&x.b)}));
+        }
+        let (version, real_refs): (u64, Vec<String>) = match pk {
+            PK::Man(v) => (v, post.versions.iter().find(|s| s.version == v).map(|s| s.refs.clone()).unwrap_or_default()),
+            PK::Det(v) => (v, det_after.iter().find(|d| d.0 == v).map(|d| d.1.clone()).unwrap_or_default()),
+            _ => unreachable!(),
+        };
+        let real: Vec<u64> = real_refs.iter().map(|p| ids.id(p)).collect();
+        let restore_v = if op == "restore" { Some(1 + variant % 2) } else { None };
+        // the base manifest: the restored version, else the latest attached one
+        let base_refs: Vec<u64> = match restore_v {
+            Some(v) => cur.iter().find(|c| c.0 == (1, v)).map(|c| c.2.clone()).unwrap_or_default(),
+            None => cur.iter().filter(|c| c.0 .0 == 1).max_by_key(|c| c.0 .1).map(|c| c.2.clone()).unwrap_or_default(),
+        };
+        let (txn_file, data_files) = match new_files.split_last() {
+            Some((t, d)) => (Some(*t), d.to_vec()),
+            None => (None, vec![]),
+        };
+        let flags: Vec<bool> = data_files.iter().map(|f| real.contains(f)).collect();
+        let keep: Vec<bool> = base_refs.iter().map(|f| real.contains(f)).collect();
+        let mut adopt: Vec<u64> = real.iter().filter(|f| !new_files.contains(f) && !base_refs.contains(f)).cloned().collect();
+        adopt.sort();
+        adopt.dedup();
+        // the references in the model's order
+        let mut refs: Vec<u64> = data_files.iter().filter(|f| real.contains(f)).cloned().collect();
+        if let Some(t) = txn_file {
+            if real.contains(&t) {
+                refs.push(t);
+            }
+        }
+        refs.extend(base_refs.iter().filter(|f| real.contains(f)));
+        refs.extend(adopt.iter());
+        let det = matches!(pk, PK::Det(_));
+        let pre_c = coq::list(cur.iter().map(|c| format!("({}, ({}, {}))", pc(c.0), c.1, coq::nlist(c.2.iter()))));
+        let input = format!(
+            "({}, ({}, (({}, ({}, {})), ({}, {}))))",
+            pre_c,
+            cfg.hcode(),
+            coq::list(flags.iter().map(|b| coq::b(*b))),
+            restore_v.map(|v| v + 1).unwrap_or(0),
+            if det { format!("{}", version as u128 + 1) } else { "0".into() },
+            coq::list(keep.iter().map(|b| coq::b(*b))),
+            coq::nlist(adopt.iter())
+        );
+        let output = format!("({}, ({}, {}))", coq::list(calls), version, coq::nlist(refs.iter()));
+        nseg += 1;
+        sink.count("prog-commits");
+        prog.push(input, output, json!({"cfg": cfg.name(), "op": op, "commit": nseg, "calls": human, "version": version.to_string(), "refs": real_refs, "files_referenced": flags, "adopted": adopt}));
+        // the store after this commit
+        for f in &new_files {
+            cur.push(((0, *f), 0, vec![]));
+        }
+        cur.push((if det { (2, version) } else { (1, version) }, version, refs));
+        seg.clear();
+    }
+}
+
 const ITY: &str = "(list ((N * N) * (N * list N)) * list (N * ((N * N) * (N * N)))) * (bool * list (N * list N))";
 const OTY: &str = "N * list N";
 
@@ -370,6 +471,8 @@ fn main() {
     let mut rng = Rng::new(args.seed);
     let mut replay = Stream::new("replay", REQ, "chk_replay", ITY, OTY);
     replay.shard = 60;
+    let mut prog = Stream::new("prog", REQ, "chk_prog", P_ITY, P_OTY);
+    prog.shard = 60;
 
     let cfgs: Vec<Cfg> = if args.thorough() { vec![Cfg::LocalRename, Cfg::MemCondPut, Cfg::LocalLock, Cfg::LocalCondPut] } else { vec![Cfg::LocalRename, Cfg::MemCondPut, Cfg::LocalLock] };
     let t0 = std::time::Instant::now();
@@ -407,6 +510,7 @@ fn main() {
                 }
                 let clean = judge_and_emit(&mut sink, &mut replay, p, None, &clean_out, op, "clean", true, sabotage_trace).await;
                 let Some(clean) = clean else { continue };
+                emit_prog(&mut sink, &mut prog, p, &clean_out, &clean.0, &clean.1, op, variant);
                 let n = clean_out.calls;
                 // 2. every fault point
                 for k in 1..=n {
@@ -430,6 +534,7 @@ fn main() {
         eprintln!("[hx_c01] {} done at {:.1}s", cfg.name(), t0.elapsed().as_secs_f64());
     }
     sink.add(replay);
+    sink.add(prog);
     sink.notes.push("recording + fault-injecting object_store wrapper under the real write path; every mutating call of every operation kind failed / stopped / reply lost; fresh-session reader oracle; model replay of the recorded calls".into());
     sink.finish();
     // background tasks of stopped operations hang on the gated store forever: leave without joining them
